@@ -100,7 +100,8 @@ def gen_case(ctx, k):
     kind = "grid" if k % 2 == 0 else "graph"
     space, info = stoch_gen.rand_space(rng, kind=kind, nenv=nenv, max_cells=6)
     # conservative networks are the interesting ones: prefer isomerisations / bindings, low chemostat rate
-    net = stoch_gen.rand_network(rng, nenv=nenv, max_order=3, chem_p=0.1,
+    chem_mid = k % 6 in (4, 5)
+    net = stoch_gen.rand_network(rng, nenv=nenv, max_order=3, chem_p=0.1, ns=(3 if chem_mid else None),
                                  nr=rng.choice([0, 1, 1, 2, 2, 3]))
     if rng.random() < 0.7:
         # replace the reactions by mass-conserving ones (A -> B, A + B -> C, 2 A -> B ...) so that non-trivial laws exist
@@ -140,7 +141,7 @@ def gen_case(ctx, k):
             sp_["D"] = float(rng.choice([0.25, 0.5, 1, 2]))
     n = info["n"]
     ns = len(net["species"])
-    if ns >= 3 and rng.random() < 0.3:
+    if ns >= 3 and (chem_mid or rng.random() < 0.2):
         # a chemostated species declared BEFORE the reacting ones
         for s in net["species"]:
             s.pop("chstt", None)
@@ -161,146 +162,6 @@ def gen_case(ctx, k):
 
 def small(case):
     return {k: case[k] for k in ("net", "space", "kind", "option", "seed", "dt", "tmax", "state", "max_iter", "edge", "before", "mode", "units", "same_object") if k in case}
-
-
-def parse_side(txt, labels):
-    v = [0] * len(labels)
-    for term in txt.split("+"):
-        term = term.strip()
-        if not term:
-            continue
-        parts = term.split()
-        coef, lab = (int(parts[0]), parts[1]) if len(parts) == 2 else (1, parts[0])
-        v[labels.index(lab)] += coef
-    return v
-
-
-def true_sto(net):
-    """net stoichiometric matrix (species-major, forward and reverse direction of every reaction) read from the
-    equation texts of the generated network — independent of the repository's parser and matrices"""
-    labels = [s["label"] for s in net["species"]]
-    cols = []
-    for r in net["reactions"]:
-        l, rr = r["eq"].split("->")
-        a, b = parse_side(l, labels), parse_side(rr, labels)
-        cols.append([y - x for x, y in zip(a, b)])
-        cols.append([x - y for x, y in zip(a, b)])
-    nr = len(cols)
-    return [cols[r][s] for s in range(len(labels)) for r in range(nr)], nr
-
-
-def conservation_vectors(arr, net=None):
-    """integer vectors c with c . sto[:, r] = 0 for every r and c_s = 0 for every species chemostated anywhere"""
-    ns, nr = arr["ns"], arr["nr"]
-    n = len(arr["chem"]) // ns if ns else 0
-    free = [s for s in range(ns) if not any(arr["chem"][s * n + i] for i in range(n))]
-    if not free:
-        return [], free
-    sto = arr["sto"]
-    if net is not None:
-        sto, nr = true_sto(net)
-    sub = [sto[s * nr + r] for s in free for r in range(nr)]
-    basis = stoch_gen.left_null_space(sub, len(free), nr)
-    out = []
-    for b in basis:
-        c = [0] * ns
-        for v, s in zip(b, free):
-            c[s] = v
-        out.append(c)
-    # sums of basis vectors are conservation laws too: add one combination to exercise non-basis vectors
-    if len(out) >= 2:
-        out.append([a + 2 * b for a, b in zip(out[0], out[1])])
-    return out, free
-
-
-def gen_case(ctx, k):
-    rng = ctx.rng
-    nenv = rng.choice([1, 2, 2, 3])
-    kind = "grid" if k % 2 == 0 else "graph"
-    space, info = stoch_gen.rand_space(rng, kind=kind, nenv=nenv, max_cells=6)
-    # conservative networks are the interesting ones: prefer isomerisations / bindings, low chemostat rate
-    net = stoch_gen.rand_network(rng, nenv=nenv, max_order=3, chem_p=0.1,
-                                 nr=rng.choice([0, 1, 1, 2, 2, 3]))
-    if rng.random() < 0.7:
-        # replace the reactions by mass-conserving ones (A -> B, A + B -> C, 2 A -> B ...) so that non-trivial laws exist
-        labs = [s["label"] for s in net["species"]]
-        reacs = []
-        for _ in range(rng.randint(1, 2)):
-            a, b = rng.choice(labs), rng.choice(labs)
-            c = rng.choice(labs)
-            eq = rng.choice(["%s -> %s" % (a, b), "%s + %s -> %s" % (a, b, c), "2 %s -> %s" % (a, b), "%s -> 2 %s" % (a, c)])
-            l, r = eq.split(" -> ")
-            if sorted(l.split(" + ")) == sorted(r.split(" + ")):
-                continue
-            reacs.append({"eq": eq, "k+": stoch_gen.env_value(rng, net["environments"], [Fraction(1, 4), Fraction(1, 2), 1]),
-                          "k-": stoch_gen.env_value(rng, net["environments"], [Fraction(1, 4), Fraction(1, 8), 0])})
-        net["reactions"] = reacs
-    if kind == "graph" and k % 6 in (1, 3):
-        # a hub: one node with MORE than six edges (star / wheel), heterogeneous volumes, diffusing species
-        leaves = rng.randint(7, 9)
-        hs = [rng.choice([Fraction(1), Fraction(1, 2), Fraction(2), Fraction(3, 2)]) for _ in range(leaves + 1)]
-        nodes = [{"volume": float(hh ** 3), "environment": rng.randrange(nenv)} for hh in hs]
-        edges = [{"nodes": [0, j] if rng.random() < 0.5 else [j, 0], "surface": float(Fraction(rng.randint(1, 8), 8)),
-                  "distance": float(Fraction(rng.randint(1, 8), 4))} for j in range(1, leaves + 1)]
-        if rng.random() < 0.5:
-            edges += [{"nodes": [j, j % leaves + 1], "surface": 0.5, "distance": 1.0} for j in range(1, leaves + 1)]
-        space = {"type": "graph", "nodes": nodes, "edges": edges}
-        info = {"kind": "graph", "n": leaves + 1, "edge": hs, "nedges": len(edges)}
-        for sp_ in net["species"]:
-            sp_["D"] = float(rng.choice([0.25, 0.5, 1, 2]))
-    if kind == "grid" and k % 6 in (0, 2):
-        # a genuinely three-dimensional grid with at least one reflecting axis of length >= 2, diffusing species
-        w, h, d = rng.choice([(1, 1, 3), (2, 1, 2), (1, 2, 2), (1, 1, 2), (2, 1, 3), (1, 2, 3)])
-        bc = {"x": rng.choice(["reflecting", "periodical"]), "y": rng.choice(["reflecting", "periodical"]), "z": "reflecting"}
-        space = dict(space)
-        space.update({"w": w, "h": h, "d": d, "cell_env": [rng.randrange(nenv) for _ in range(w * h * d)], "boundary_conditions": bc})
-        info = dict(info, n=w * h * d)
-        for sp_ in net["species"]:
-            sp_["D"] = float(rng.choice([0.25, 0.5, 1, 2]))
-    n = info["n"]
-    ns = len(net["species"])
-    if ns >= 3 and rng.random() < 0.3:
-        # a chemostated species declared BEFORE the reacting ones
-        for s in net["species"]:
-            s.pop("chstt", None)
-        q = rng.choice([0, 1, 1])
-        net["species"][q]["chstt"] = True
-        labs = [s["label"] for s in net["species"]]
-        o1, o2 = [x for x in range(3) if x != q]
-        net["reactions"] = [{"eq": "%s -> %s" % (labs[o1], labs[o2]), "k+": 1.0, "k-": 0.25},
-                            {"eq": "%s + %s -> %s" % (labs[q], labs[o1], labs[o2]), "k+": 0.5, "k-": 0}][:rng.randint(1, 2)]
-    state = [float(rng.choice([0, 1, 2, 3, 5, 8])) for _ in range(ns * n)]
-    tau_dt = 1 / 2048
-    if any(s.get("chstt") is True for s in net["species"][:2]) and ns >= 3 and len(net["reactions"]) <= 2 and \
-            all(r["eq"].count("+") <= 1 and "2 " not in r["eq"] and "3 " not in r["eq"] for r in net["reactions"]):
-        tau_dt = 1 / 32        # low-order network: a larger leap so that reactions actually fire in every cell
-    return {"tau_dt": tau_dt, "net": net, "space": space, "kind": kind, "seed": rng.randint(0, 2 ** 31 - 1), "state": state, "tmax": 1e9,
-            "edge": info["edge"] if kind == "grid" else list(info["edge"])}
-
-
-def small(case):
-    return {k: case[k] for k in ("net", "space", "kind", "option", "seed", "dt", "tmax", "state", "max_iter", "edge", "before", "mode", "units", "same_object") if k in case}
-
-
-def child_run_seq(case, lib):
-    """the SAME engine object is used for `case["before"]` (a list of earlier scripts) and then for the case itself, as
-    when one engine object is passed to successive simulate() calls; returns the result of the last run"""
-    from strengths.librdengine import LibRDEngine
-    import strengths as st
-    option = case["option"]
-    eng = LibRDEngine(lib, option=option, requires_molecules=(option != "euler"))
-    for prev in case.get("before", []):
-        system = stoch_gen.build_system(prev["net"], prev["space"])
-        system.state = list(prev["state"])
-        script = st.RDScript(system, t_sample=[0], time_step=case["dt"], t_max=1e9, sampling_policy="on_iteration",
-                             rng_seed=prev["seed"])
-        eng.setup(script)
-        for _ in range(5):
-            if not eng.iterate():
-                break
-        eng.get_output()
-        eng.finalize()
-    return stoch_gen.child_run(case, lib, eng=eng)
 
 
 def totals(c, x, n, ns):
